@@ -1968,9 +1968,14 @@ var witnesses = []witness{
 	{"case-colliding-directory-entries", "case-colliding-entries", jobj("./x", "./index/A"), "pkg/x", []string{"index/A", "index/a/b.js"}, nil, nil, nil, ""},
 	{scenario: "invalid-package-name-taken-as-self-reference", what: "nameless-self-reference", spec: "@foo", kinds: []string{"require"},
 		raw: map[string]string{
-			"package.json":                `{"exports":{".":"./own.js"}}`,
-			"own.js":                      "module.exports='own'\n",
-			"node_modules/@foo/index.js":  "module.exports='foo'\n"}},
+			"package.json":               `{"exports":{".":"./own.js"}}`,
+			"own.js":                     "module.exports='own'\n",
+			"node_modules/@foo/index.js": "module.exports='foo'\n"}},
+	{scenario: "import-file-shadows-package-directory", what: "esm-file-shadows-package", spec: "dep", kinds: []string{"import"},
+		raw: map[string]string{
+			"node_modules/dep/package.json": `{"name":"dep","main":"./main.js"}`,
+			"node_modules/dep/main.js":      "export default 1\n",
+			"node_modules/dep.js":           "export default 2\n"}},
 	{scenario: "package-scope-stops-at-node-modules", what: "scope-boundary", spec: "rootpkg", importer: "node_modules/nopkg/index.js",
 		raw: map[string]string{
 			"package.json":                      `{"name":"rootpkg","exports":{".":"./own.js"}}`,
@@ -1990,6 +1995,7 @@ func textOrNone(j *jv) string {
 }
 
 func runWitnesses(tmp string, st *Stats) {
+	reported := map[string]bool{}
 	for _, w := range witnesses {
 		root, err := os.MkdirTemp(tmp, "wit-")
 		if err != nil {
@@ -2041,10 +2047,14 @@ func runWitnesses(tmp string, st *Stats) {
 				st.Histogram["witness-now-agrees:"+w.scenario+":"+c.Kind]++
 				continue
 			}
-			if i > 0 && judge(nres[0], eres[0]) != "" {
-				st.Histogram["FAIL:known-class:"+w.what]++ // same scenario, second kind: counted, reported once
+			if (i > 0 && judge(nres[0], eres[0]) != "") || reported[w.what] {
+				// same scenario with the second kind, or a further scenario of a class already
+				// reported in this run: counted (histogram), reported once per class
+				st.Histogram["FAIL:known-class:"+w.what]++
+				st.Histogram["witness-still-diverges:"+w.scenario]++
 				continue
 			}
+			reported[w.what] = true
 			st.Fail("known-class:"+w.what,
 				map[string]interface{}{"scenario": w.scenario, "exports": textOrNone(w.exports), "imports": textOrNone(w.imports), "specifier": w.spec, "kind": c.Kind, "files": w.files},
 				map[string]interface{}{"esbuild_path": strings.TrimPrefix(eres[i].path, root), "esbuild_errors": eres[i].errs, "verdict": v},
